@@ -1,12 +1,14 @@
 package engnode
 
 import (
+	"bytes"
 	"context"
 	"errors"
 	"fmt"
 	"math/rand"
 	"os"
 	"sync"
+	"sync/atomic"
 	"time"
 
 	"github.com/drand/drand/v2/common"
@@ -27,14 +29,35 @@ type scriptedPublic struct {
 	nullPublic
 	mu      sync.Mutex
 	answers map[string]map[uint64]pubAnswer // peer address -> requested round -> answer
+	skipped *int64                          // answers loadBeaconFromPeers has skipped so far (from the process's log)
 }
 
 type pubAnswer struct {
-	after chan struct{} // the answer is held back until this is closed (the other peer has answered) and the process is quiescent
-	done  chan struct{} // closed when this answer has been given
-	once  *sync.Once
+	first *firstAnswer   // shared by the two peers' answers to one request; nil: no ordering
+	slot  int            // 0: answers at once; 1: answers after the caller has taken in slot 0's answer
 	b     *common.Beacon // nil = error
 }
+
+// firstAnswer orders the two answers to one request by construction, not by delay: the second
+// peer's answer leaves only after the first one has been given AND, if it was an error, after
+// loadBeaconFromPeers has logged that it skipped it (it then waits for the next answer). A first
+// answer that is not an error ends loadBeaconFromPeers, so the second one no longer matters.
+type firstAnswer struct {
+	given chan struct{}
+	once  sync.Once
+	need  int64 // value the skipped-answer counter must reach before the second answer leaves
+}
+
+// bootSink counts the answers loadBeaconFromPeers skipped ("failed to get rand value from peer").
+type bootSink struct{ n *int64 }
+
+func (b bootSink) Write(p []byte) (int, error) {
+	if bytes.Contains(p, []byte("failed to get rand value from peer")) {
+		atomic.AddInt64(b.n, 1)
+	}
+	return len(p), nil
+}
+func (bootSink) Sync() error { return nil }
 
 func (s *scriptedPublic) PublicRand(ctx context.Context, p net.Peer, in *proto.PublicRandRequest) (*proto.PublicRandResponse, error) {
 	s.mu.Lock()
@@ -43,18 +66,22 @@ func (s *scriptedPublic) PublicRand(ctx context.Context, p net.Peer, in *proto.P
 	if !ok {
 		return nil, errors.New("no such round")
 	}
-	// arrival order by construction, not by delay: the second answer leaves only after the first one
-	// has been given and taken in by the caller (nothing running or runnable any more)
-	if a.after != nil {
+	if a.first != nil && a.slot == 1 {
 		select {
-		case <-a.after:
-			emit.Quiesce(20 * time.Second)
+		case <-a.first.given:
+			deadline := time.Now().Add(9 * time.Second)
+			for atomic.LoadInt64(s.skipped) < atomic.LoadInt64(&a.first.need) && time.Now().Before(deadline) && ctx.Err() == nil {
+				time.Sleep(100 * time.Microsecond)
+			}
 		case <-ctx.Done():
 			return nil, ctx.Err()
 		}
 	}
-	if a.done != nil {
-		defer a.once.Do(func() { close(a.done) })
+	if a.first != nil && a.slot == 0 {
+		if a.b == nil {
+			atomic.StoreInt64(&a.first.need, atomic.LoadInt64(s.skipped)+1)
+		}
+		defer a.first.once.Do(func() { close(a.first.given) })
 	}
 	if a.b == nil {
 		return nil, errors.New("peer error")
@@ -106,10 +133,11 @@ func RunBootstrap(out string, seed int64, tier string) error {
 		if err != nil {
 			return err
 		}
-		lg := log.New(discardSync{}, log.ErrorLevel, false)
+		var skipped int64
+		lg := log.New(bootSink{&skipped}, log.ErrorLevel, false)
 		cfg := core.NewConfig(lg, core.WithConfigFolder(dir), core.WithDBStorageEngine(chain.MemDB))
 		ks := &memKeyStore{pair: w.Privs[0], group: w.Epochs[0].Group, share: w.Epochs[0].Shares[0]}
-		sp := &scriptedPublic{answers: map[string]map[uint64]pubAnswer{}}
+		sp := &scriptedPublic{answers: map[string]map[uint64]pubAnswer{}, skipped: &skipped}
 		ctx, cancel := context.WithCancel(context.Background())
 		bp, err := core.NewBeaconProcess(ctx, lg, ks, util.NewFanOutChan[dkg.SharingOutput](), "default", cfg,
 			&net.PrivateGateway{ProtocolClient: w.Client, PublicClient: sp})
@@ -155,15 +183,11 @@ func RunBootstrap(out string, seed int64, tier string) error {
 		order := rng.Perm(2)
 		var ansT, ansL []*common.Beacon
 		var kdesc []string
-		firstT, firstL := make(chan struct{}), make(chan struct{})
+		firstT, firstL := &firstAnswer{given: make(chan struct{})}, &firstAnswer{given: make(chan struct{})}
 		for slot, pi := range order {
 			kt, kl := kinds[rng.Intn(len(kinds))], kinds[rng.Intn(len(kinds))]
 			bt, bl := mk(kt, target), mk(kl, 0)
-			at, al := pubAnswer{done: firstT, once: &sync.Once{}, b: bt}, pubAnswer{done: firstL, once: &sync.Once{}, b: bl}
-			if slot == 1 {
-				at, al = pubAnswer{after: firstT, b: bt}, pubAnswer{after: firstL, b: bl}
-			}
-			sp.answers[peers[pi]] = map[uint64]pubAnswer{target: at, 0: al}
+			sp.answers[peers[pi]] = map[uint64]pubAnswer{target: {first: firstT, slot: slot, b: bt}, 0: {first: firstL, slot: slot, b: bl}}
 			ansT, ansL = append(ansT, bt), append(ansL, bl)
 			kdesc = append(kdesc, kt+"/"+kl)
 		}
